@@ -85,6 +85,17 @@ def extra_streams():
         dict(wavelet_index=9),
     ):
         out.append(("odd-" + "-".join("%s" % k for k in kw), B.simple_stream(hq.but(**kw), 1)))
+    # concatenated sequences whose pictures differ only in colour-difference sampling (same luma
+    # size, depths, slice counts): anything remembered about one picture's geometry must not
+    # be applied to another's, neither while reading nor while writing back
+    import itertools as _it
+
+    fmts = {c: hq.but(color_diff_format_index=c, frame_width=4, frame_height=4, clean_area="frame") for c in (0, 1, 2)}
+    for perm in _it.permutations((0, 1, 2)):
+        units = []
+        for c in perm:
+            units += B.simple_stream(fmts[c], 1, slice_kw=lambda sx, sy: {"qindex": 0, "coeffs": ([1, -1, 2, 0, 1, 1, 0, 1], [1, 1, 0, 1], [0, -1, 1, 1])})
+        out.append(("formats-%d%d%d" % perm, units))
     for npo in (0, 1, 12, 13, 14):
         out.append(("pad-npo-%d" % npo, [B.seq_header(hq), B.padding(b"", npo=npo), B.auxiliary(b"", npo=npo), B.end_of_sequence()]))
         out.append(("pad1-npo-%d" % npo, [B.seq_header(hq), B.padding(b"z", npo=npo), B.end_of_sequence()]))
@@ -101,8 +112,9 @@ def extra():
     return _EXTRA
 
 
-def roundtrip(data):
-    """Returns (kind, problems)."""
+def roundtrip(data, prefilled=False):
+    """Returns (kind, problems).  prefilled: serialise into a file object that already holds
+    (longer) old contents, written over in place from offset 0."""
     from vc2_conformance import bitstream as bs
     from vc2_conformance.pseudocode.state import State
 
@@ -119,16 +131,22 @@ def roundtrip(data):
         return "unparseable:" + type(e).__name__, []
     # Parsed to completion.  The deserialiser stops at end of stream only
     # (parse_stream loops until EOF), so all bytes were consumed.
-    out = io.BytesIO()
+    old = b"\xaa" * (len(data) + 40) if prefilled else b""
+    out = io.BytesIO(old)
+    out.seek(0)
     w = bs.BitstreamWriter(out)
     try:
         with bs.Serialiser(w, ctx, bs.vc2_default_values) as ser:
             bs.parse_stream(ser, State())
         w.flush()
     except Exception as e:  # noqa
-        return "parsed", ["re-serialising the deserialised description raised %s: %s" % (type(e).__name__, e)]
+        return "parsed", ["re-serialising the deserialised description%s raised %s: %s" % (" over old file contents" if prefilled else "", type(e).__name__, e)]
     got = out.getvalue()
     problems = []
+    if prefilled:
+        if got[len(data) :] != old[len(data) :] or w.tell() != (len(data), 7):
+            return "parsed", ["serialising over old file contents wrote beyond the stream: writer at %r after a %d-byte stream, %d bytes of the old contents changed" % (w.tell(), len(data), sum(1 for a, b in zip(got[len(data) :], old[len(data) :]) if a != b))]
+        got = got[: len(data)]
     if got != bytes(data):
         n = min(len(got), len(data))
         i = next((k for k in range(n) if got[k] != data[k]), n)
@@ -166,7 +184,10 @@ def all_cases(tier):
 def run_case(case):
     data = case_bytes(case)
     try:
-        return pool.with_watchdog(HORIZON, roundtrip, data)
+        kind, problems = pool.with_watchdog(HORIZON, roundtrip, data)
+        if kind == "parsed" and not problems and case[1] in ("id", "extra"):
+            kind, problems = pool.with_watchdog(HORIZON, roundtrip, data, True)
+        return kind, problems
     except pool.Watchdog:
         return "timeout", []
 
